@@ -437,12 +437,61 @@ def _av_spec(cfg, i, path):
     return path.outcome == 'ret' and path.value == 'ok'
 
 
+# ------------------------------------------------------------------ EntityMeta._set_rbits: attributes a query USED become observed, for every object of the result, by that object's own class
+_RB_BITS = {'Base': {'a': 1, 'b': 2, 'vol': 0}, 'Sub': {'a': 1, 'b': 2, 'vol': 0, 'c': 4, 'd': 8}, 'Sub2': {'a': 1, 'b': 2, 'vol': 0, 'e': 4}}       # bit layouts differ between sibling subclasses
+_RB_USED = (('a',), ('c',), ('a', 'c'), ('b', 'e', 'vol'), ('c', 'd', 'e'), ('not an attribute of any class',))
+
+
+def _rb_configs(tier):
+    import itertools
+    out = []
+    for n in (1, 2, 3):
+        for classes in itertools.product(('Base', 'Sub', 'Sub2'), repeat=n):
+            for used in _RB_USED:
+                for written in ('nothing written', 'first object wrote a', 'last object wrote c or e', 'first object is being created'):
+                    out.append(dict(classes=' '.join(classes), used=' '.join(used), written=written))
+    return out
+
+
+def _rb_case(cfg, values):
+    def call():
+        K = {n: type(n, (object,), {'_bits_except_volatile_': dict(b)}) for n, b in _RB_BITS.items()}
+        objs = []
+        names = cfg['classes'].split()
+        for k, n in enumerate(names):
+            o = K[n](); o._rbits_ = 0; o._wbits_ = 0
+            if cfg['written'] == 'first object wrote a' and k == 0: o._wbits_ = 1
+            if cfg['written'] == 'last object wrote c or e' and k == len(names) - 1: o._wbits_ = 4; o._rbits_ = 2
+            if cfg['written'] == 'first object is being created' and k == 0: o._wbits_ = None
+            objs.append(o)
+        before = [(o._rbits_, o._wbits_) for o in objs]
+        core.EntityMeta._set_rbits(K['Base'], objs, tuple(cfg['used'].split(' ')) if cfg['used'] != 'not an attribute of any class' else ('zzz',))
+        return before, [(type(o).__name__, o._rbits_, o._wbits_) for o in objs]
+    return Case(call, {}, [])
+
+
+def _rb_spec(cfg, i, path):
+    if path.outcome != 'ret': return False
+    before, after = path.value
+    used = cfg['used'].split(' ')
+    for (r0, w0), (cname, r1, w1) in zip(before, after):
+        if w1 != w0: return False
+        if w0 is None:
+            if r1 != r0: return False
+            continue
+        want = r0 | (sum(_RB_BITS[cname].get(a, 0) for a in used) & ~w0)          # the bits of the object's OWN class, minus what the session wrote itself
+        if r1 != want: return False
+    return True
+
+
 CONTRACTS = [
     Contract('Attribute.db_set', 'pony.orm.core:Attribute.db_set', _ds_configs, _ds_case,
              [('observed_value_replaced_only_by_equal_value_else_error', _ds_spec)], allowed_exc=(core.UnrepeatableReadError,), replay=False),
     Contract('Entity._db_set_', 'pony.orm.core:Entity._db_set_', _row_configs, _row_case,
              [('row_refresh_never_replaces_an_observed_value', _row_spec)], allowed_exc=(core.UnrepeatableReadError,), replay=False),
     Contract('EntityMeta._initialize_bits_', 'pony.orm.core:EntityMeta._initialize_bits_', [dict()], _bits_case, [('volatile_attributes_have_no_repeatable_read_bit', _bits_spec)]),
+    Contract('EntityMeta._set_rbits', 'pony.orm.core:EntityMeta._set_rbits', _rb_configs, _rb_case, [('used_attributes_become_observed_by_the_objects_own_class', _rb_spec)], level='bounded',
+             bound='results of 1..3 objects over 3 classes of one hierarchy (sibling subclasses with different bit layouts) x 6 sets of used attributes x 4 write states'),
     Contract('Attribute.__get__', 'pony.orm.core:Attribute.__get__', _get_configs, _get_case, [('read_bit_set_iff_not_written_and_not_volatile', _get_spec)]),
     Contract('observed_collection', ['pony.orm.core:Set.copy', 'pony.orm.core:Set.load', 'pony.orm.core:SetInstance.__len__', 'pony.orm.core:Set.db_reverse_add',
                                      'pony.orm.core:Set.db_reverse_remove', 'pony.orm.core:Attribute.db_set'], _cr_configs, _cr_case,
